@@ -137,6 +137,13 @@ def pair_continuation(ctx, i, spec, n, rng, case):
             op_['T_via'] = rng.choice(GEN.time_units_for(GEN.qsi(dt)))
             op_['dt_via'] = rng.choice(GEN.time_units_for(GEN.qsi(dt)))
         sched.append(op_)
+    if rng.random() < 0.35:
+        # the parts are issued through two Solver objects used alternately (the second one is created while a history exists)
+        sched3 = []
+        for o_ in sched:
+            sched3 += [o_, {'op': 'swapsolver'}]
+        sched = sched3[:-1]
+        ctx.count('split_runs_through_alternating_solvers')
     if rng.random() < 0.25:
         # between the parts of the split run ANOTHER independent model is built and advanced (module-level state, class
         # attributes and caches shared between objects would make the split history differ from the single run)
@@ -187,14 +194,14 @@ def pair_continuation(ctx, i, spec, n, rng, case):
     ctx.count('instants_compared', t1.n)
     diff = compare_traces(t1, t2)
     if diff:
-        diff.update(cuts=cuts, dt=dt, split_schedule=[(o['dt'], o['T']) for o in sched], self_locking=ana.nums['self_locking'])
+        diff.update(cuts=cuts, dt=dt, split_schedule=[(o['dt'], o['T']) for o in sched if o['op'] == 'run'], self_locking=ana.nums['self_locking'])
         ctx.violation('C12:continuation-differs-from-single-run', diff, case)
         return
     l = spec['load']
     if l['B'] or l['C'] or l['S'] or l['step_t'] is not None:
-        ctx.seen('nontrivial', SC.topo_signature(spec) + f'|cont{len(parts)}|' + ''.join(o['dt']['u'][0] for o in sched))
+        ctx.seen('nontrivial', SC.topo_signature(spec) + f'|cont{len(parts)}|' + ''.join(o['dt']['u'][0] for o in sched if o['op'] == 'run'))
     if len(ctx.samples) < 2:
-        ctx.sample({'pair': 'continuation', 'topology': SC.topo_signature(spec), 'steps': n, 'cuts': cuts, 'split_units': [o['dt']['u'] for o in sched],
+        ctx.sample({'pair': 'continuation', 'topology': SC.topo_signature(spec), 'steps': n, 'cuts': cuts, 'split_units': [o['dt']['u'] for o in sched if o['op'] == 'run'],
                     'instants': t1.n, 'max_abs_output_speed': max(abs(x) for x in t1.els[-1]['vars']['angular speed'])})
 
 
